@@ -10,7 +10,7 @@
 (* S' -> start), dot position (0 = before the first symbol) and lookahead  *)
 (* (a terminal or EOFSYM).                                                 *)
 (***************************************************************************)
-EXTENDS Cfg, TLC
+EXTENDS Cfg, TLC, Integers
 
 Item(r, d, la) == [r |-> r, d |-> d, la |-> la]
 Rhs(G, r) == IF r = 0 THEN <<G.start>> ELSE G.rules[r].rhs
